@@ -630,14 +630,6 @@ theorem concrete_contract : Contract concreteHandlers TWc Acc Calm notIkeRekey w
 
 /-! ### whole histories -/
 
-/-- one `select` round of the whole model: the loop iteration, after which the kernel has executed the netlink requests the
-    iteration issued — in order — and the handlers' picture of the kernel is that kernel -/
-def wholeStep (wc : XWorld × Ctl) (x : Nat × LoopEv) : XWorld × Ctl :=
-  let r := loopIter concreteHandlers wc.1 wc.2 x.1 x.2
-  ({ r.1 with sad := applyNls wc.1.sad r.2.nl }, r.2.ctl)
-
-def wholeRun (wc : XWorld × Ctl) (evs : List (Nat × LoopEv)) : XWorld × Ctl := evs.foldl wholeStep wc
-
 /-- between two rounds: the kernel SAD (`w.sad`) is exactly what the table tracks, every entry once — unless two objects of
     the model were ever given the same SPI -/
 def Sync (wc : XWorld × Ctl) : Prop := wc.1.clash = true ∨ TW wc.2.sas wc.1 wc.1.sad
